@@ -251,9 +251,13 @@ def features(rec):
 def run(ctx, res):
     progs = programs_for(ctx)
     res.rule = ("%d programs: hand-written corpus + gen_design.gen_program(max_space=%d) (all shapes: cross/multi/repeat/merge/nest, "
-                "derived within/transition/window, every constraint kind, weights); every candidate key of designs with <= %d keys "
+                "derived within/transition/window, every constraint kind, weights) + a stream inside the proved fragment Frag.frag0 "
+                "(plain crossing, free factors, Repeat/MinimumTrials rounds and leftover); every candidate key of designs with <= %d keys "
                 "decoded by the real enumerator and by the model; non-trivial = distinct (main crossing, preamble, crossing size, m, "
                 "weighted?, instances, possible keys) tuples" % (len(progs), MAX_SPACE, MAX_KEYS))
+    res.notes.append("level: proof for designs inside Frag.frag0 (Properties/C05.v, closed under the global context); outside it the "
+                     "property is decided per design by exhaustive enumeration of the real enumerator's keys against the reference "
+                     "oracle (translation validation), with the model tied to the code by layer L8")
     recs = random_corr.random_correspondence(ctx, res, [p for _, p in progs], max_keys=MAX_KEYS)
     hist = random_corr.summarize(recs)
     res.extra["L8_status"] = hist
